@@ -54,16 +54,16 @@ Qed.
 Lemma fnwi_ge l k : k <= first_non_ws_inline l k <= k + List.length l.
 Proof.
   revert k. induction l as [|t r IH]; intros k; cbn [first_non_ws_inline List.length]; [lia|].
-  destruct (is_ws_inline t); [|lia]. specialize (IH (S k)). lia.
+  destruct (is_ws t); [|lia]. specialize (IH (S k)). lia.
 Qed.
 
 Lemma trim_start_fnwi l k t :
-  nth_error l (first_non_ws_inline l k - k) = Some t -> is_ws_inline t = false ->
-  trim_start l = t :: skipn (S (first_non_ws_inline l k - k)) l.
+  nth_error l (first_non_ws_inline l k - k) = Some t -> is_ws t = false ->
+  trim_start_all l = t :: skipn (S (first_non_ws_inline l k - k)) l.
 Proof.
   revert k. induction l as [|u r IH]; intros k H Ht; cbn [first_non_ws_inline] in *.
   - destruct (k - k); discriminate.
-  - cbn [trim_start]. destruct (is_ws_inline u) eqn:Hu.
+  - cbn [trim_start_all]. destruct (is_ws u) eqn:Hu.
     + pose proof (fnwi_ge r (S k)) as Hb.
       replace (first_non_ws_inline r (S k) - k) with (S (first_non_ws_inline r (S k) - S k)) in * by lia.
       cbn [nth_error skipn] in *. apply (IH (S k)); assumption.
